@@ -548,6 +548,7 @@ Definition run (tag : Z) (args : list Z) : list Z :=
   | 81, _ => ANY
   | 82, _ => ANY
   | 83, _ => ANY
+  | 90, _ => ANY
   | _, _ => BAD
   end.
 
@@ -591,6 +592,7 @@ Definition spec (tag : Z) (args : list Z) : list Z :=
   | 81, _ => repeat 1 6
   | 82, _ => repeat 1 10
   | 83, _ => repeat 1 5
+  | 90, _ => [0]
   | _, _ => BAD
   end.
 
